@@ -3,7 +3,7 @@ import Tup.Spec.Term
 /-!
   Model of the cursor-tracking part of `tupimage/graphics_terminal.py` (class `GraphicsTerminal`),
   function by function: every public call that writes to the display/command stream or touches
-  `tracked_cursor_position`.  The model follows the *repaired* code (fixes/D2 … D5, D17):
+  `tracked_cursor_position`.  The model follows the *repaired* code (fixes/D2 … D5, D20):
 
   * D2  `move_cursor_abs(col=0)` / `(row=0)` use the given coordinate (`is not None`, not `or`);
   * D3  `set_tracked_cursor_position` clamps at 0 as well as at the last column/row;
@@ -11,7 +11,7 @@ import Tup.Spec.Term
   * D5  a flag `scroll_margins_may_be_set` (set by `set_margins`, `write`, `writecmd`, custom
         placeholder formatting; cleared by `reset`) makes relative vertical moves and the
         computed position after a forced-placeholder put forget the position;
-  * D17 `get_cursor_position` does not remember a column beyond the last one (the terminal is
+  * D20 `get_cursor_position` does not remember a column beyond the last one (the terminal is
         in the pending-wrap state, which the tracker has no notion of).
 
   What is *input* from the implementation / the environment:
@@ -155,7 +155,7 @@ def getCursorPosition (e : Env) (a : Acc) : Acc × (Int × Int) :=
   | none => (a.fail .cpr, (0, 0))
   | some (c, r) =>
     let p : Int × Int := ((c : Int) - 1, (r : Int) - 1)
-    (a.setTracked (if p.1 < (e.w : Int) then some p else none), p)      -- D17
+    (a.setTracked (if p.1 < (e.w : Int) then some p else none), p)      -- D20
 
 /-- `get_cursor_position_tracked()` -/
 def getCursorPositionTracked (e : Env) (a : Acc) : Acc × (Int × Int) :=
@@ -211,6 +211,7 @@ structure PhArgs where
 
 /-- `print_placeholder(...)` -/
 def printPlaceholder (a : Acc) (p : PhArgs) : Acc :=
+  let a := if p.formatting then a.setMargins true else a                -- D5 (custom formatting is arbitrary output)
   if p.pos.isSome && p.useLF then a.fail .value else
   match p.lines with
   | none => a.fail .value
@@ -218,8 +219,7 @@ def printPlaceholder (a : Acc) (p : PhArgs) : Acc :=
     let a := a.emit (match p.pos with
       | some pos => toStreamAbs ls pos
       | none => toStreamAtCursor ls p.width p.useSave p.useLF)
-    let a := a.setTracked none                                          -- D4
-    if p.formatting then a.setMargins true else a                       -- D5
+    a.setTracked none                                                   -- D4
 
 /-- arguments of `print_placeholder_for_put`; `lines c r` = `to_lines` of the `c`×`r` placeholder
     of the put's image in the default mode. -/
@@ -251,13 +251,14 @@ def printPlaceholderForPut (e : Env) (a : Acc) (p : PutArgs) : Acc :=
     if a.err.isSome then a else
     let a := a.setTracked none
     let a := printPlaceholder a { lines := some (p.lines cols.toNat rows.toNat), width := cols.toNat }
-    if p.noMove then
-      moveCursorAbs e a (some curX.toNat) (some curY.toNat) none
-    else if a.s.margins then a                                          -- D5
-    else if curX + cols ≥ (e.w : Int) then
-      setTrackedPos e (a.emit [escF 'E']) 0 (curY + rows)
-    else
-      setTrackedPos e a (curX + cols) (curY + rows - 1)
+    let a :=
+      if p.noMove then
+        moveCursorAbs e a (some curX.toNat) (some curY.toNat) none
+      else if curX + cols ≥ (e.w : Int) then
+        setTrackedPos e (a.emit [escF 'E']) 0 (curY + rows)
+      else
+        setTrackedPos e a (curX + cols) (curY + rows - 1)
+    if a.s.margins && !p.noMove then a.setTracked none else a            -- D5
   | _, _ => a.fail .value
 
 /-- what `send_command` looks at -/
